@@ -152,6 +152,10 @@ func (dc *ClientDnsConnection) QueryWithData(req commands.Request, timeout time.
 	dc.callMutex.Unlock()
 
 	if err != nil {
+		if ne, ok := errors.Cause(err).(net.Error); ok && ne.Timeout() {
+			// Every retry loop in this file recognises a lost query or answer by this value.
+			return nil, smux.ErrTimeout
+		}
 		return nil, errors.WithStack(err)
 	}
 
